@@ -42,7 +42,10 @@ RULE = ("scripted directory histories on real temp directories under PYTHONHASHS
         "of the cache file after every prefix length (quick: evenly subsampled above 400 bytes) followed by calls; pre-existing "
         "legacy / foreign-tuple / junk / empty / half / directory entries; a writer killed (os._exit) or interrupted (raise) "
         "after k bytes or at the rename, then fresh calls; every interleaving of two calls stopped at read/dump/rename "
-        "(quick: sampled) and random 3-4 call schedules; random mixed histories; free-running 2-4 processes with a "
+        "(quick: sampled) and random 3-4 call schedules; well-formed pickles whose load raises TypeError/ValueError/"
+        "UnicodeDecodeError/KeyError/ZeroDivisionError/... (entries of 'another ampform version'); cold start: 2-5 calls on a "
+        "nested cache directory that does not exist yet, all held at their first os.mkdir and then released, plus 8 "
+        "free-running processes per round on a fresh path; random mixed histories; free-running 2-4 processes with a "
         "truncating/deleting process.  evaluations = calls of perform_cached_doit executed and compared with doit(); "
         "distinct_nontrivial = distinct (mode, history) whose call outcomes the Robust and Pinned variants of the model "
         "predict differently (the history exercises behaviour the fix changed)")
@@ -85,7 +88,9 @@ def run(chk):
         "(there is no checksum: in-place corruption that still loads as such a tuple is not detectable)",
         "no entry '<hash>.pkl' is a non-file (a directory there makes os.replace raise: Example C16_blocked_entry_raises; "
         "the harness confirms this behaviour on the implementation and excludes those histories from the no-raise oracle)",
-        "the cache directory itself can be created and written",
+        "the cache directory itself can be created and written; its creation (mkdir exist_ok, parents) is folded into the "
+        "first step of a call in the model (idempotent) and exercised by the cold-start histories",
+        "a cache file whose load raises a BaseException that is no Exception (a pickle that calls sys.exit) is out of scope",
         "C16_pinned_correct_partial is stated for sequential undisturbed calls (stronger than 'no read overlaps a write')",
     ]
     proofs_ok = chk.compile_chain([], ["C16_lemmas.v"], "C16.v", timeout=900)
